@@ -1069,7 +1069,10 @@ class Wtp:
             namespace_id
             == self.NAMESPACE_DATA.get("Template", {"id": None}).get("id")
             and redirect_to is None
+            and model == "wikitext"
         ):
+            # <noinclude> etc. are wikitext; a json or Scribunto page that
+            # lives in the Template namespace is stored as it is
             body = self._template_to_body(title, body)
 
         self.db_conn.execute(
